@@ -52,10 +52,14 @@ def small_crystals():
         from .gen import random_triclinic
         r = random.Random(12345)
         out = []
-        L, B, Z = random_triclinic(r, 2)
-        out.append(build_supercell("tric2_111", L, B, Z, np.diag([1, 1, 1])))
-        L, B, Z = random_triclinic(r, 1)
-        out.append(build_supercell("tric1_211", L, B, Z, np.diag([2, 1, 1])))
+        from symfc import Symfc
+        while len(out) < 2:
+            nb = 2 if len(out) == 0 else r.choice([2, 3])
+            L, B, Z = random_triclinic(r, nb)
+            cr = build_supercell(f"tric{nb}_111", L, B, Z, np.diag([1, 1, 1]))
+            t = Symfc(cr.atoms()).compute_basis_set(max_order=4)
+            if all(t.basis_set[o].basis_set.shape[1] > 0 for o in (2, 3, 4)):
+                out.append(cr)
         _CRYSTALS = out
     return _CRYSTALS
 
